@@ -301,7 +301,7 @@ Qed.
 Lemma JF_step c s o : JF (snd s) [] -> JF (snd (step_st c s o)) [].
 Proof.
   destruct s as [e n]. unfold step_st. simpl. intro H.
-  destruct o as [id f|i f1 f2|w ks|ks|k v f|dt| |g s0 d|k g ttl]; simpl.
+  destruct o as [id f|i f1 f2|w ks|ks|k v f|dt| |g s0 d|k g ttl|kc]; simpl.
   - eapply same_cl_JF; [apply same_cl_take_pk|]. exact H.
   - eapply same_cl_JF; [apply same_cl_qri|]. exact H.
   - unfold exec. destruct (apply_write w (db e)); simpl; [apply JF_del_ctx|]; assumption.
@@ -312,6 +312,7 @@ Proof.
   - apply JF_do_tick. assumption.
   - eapply same_cl_JF; [|exact H]. repeat split.
   - eapply same_cl_JF; [|exact H]. repeat split.
+  - exact H.
 Qed.
 
 Lemma JF_run c ops : forall s, JF (snd s) [] -> JF (snd (run c ops s)) [].
